@@ -107,11 +107,12 @@ impl<T> AbsentNullable<T> {
 }
 
 impl<T> AbsentNullable<T> {
+    /// The field was written on the document, be it with a value or with an explicit `null`.
     #[must_use]
-    pub fn has_value(&self) -> bool {
+    pub fn is_present(&self) -> bool {
         match self {
-            AbsentNullable::Absent | AbsentNullable::Null => false,
-            AbsentNullable::Value(_v) => true,
+            AbsentNullable::Absent => false,
+            AbsentNullable::Null | AbsentNullable::Value(_) => true,
         }
     }
 }
